@@ -297,6 +297,52 @@ def mentions(n, name):
     return False
 
 
+def scope_state_inits(tc, f):
+    """every place where Template::parse creates a ScopeAnalyzeState - a struct literal, or a call of a constructor-like
+    associated function of the type - as (site node, {field: [expression nodes its value is computed from]})"""
+    out = []
+
+    def follow(e, body, depth=0):
+        """expressions a value is computed from: through locals, and through loops that push into a local"""
+        res = [e]
+        x = sir.strip_ref(e)
+        while x.get("k") == "mcall" and x["m"] in ("clone", "to_vec", "to_owned", "collect", "into") and not x["args"]:
+            x = sir.strip_ref(x["recv"])
+        if x.get("k") == "path" and len(x["segs"]) == 1 and depth < 3:
+            nm = x["segs"][0]
+            for l_ in sir.walk(body):
+                if l_.get("k") == "local" and l_["pat"].get("name") == nm and l_.get("init") is not None:
+                    res += follow(l_["init"], body, depth + 1)
+                if l_.get("k") == "for" and any(y.get("k") == "mcall" and y["m"] in ("push", "extend") and sir.root_expr_name(y["recv"]) == nm for y in sir.walk(l_["body"])):
+                    res += follow(l_["e"], body, depth + 1)
+        return res
+    for n in sir.walk(f.body):
+        if n.get("k") == "struct" and n["path"].endswith("ScopeAnalyzeState"):
+            out.append((n, {fl["name"]: follow(fl["e"], f.body) for fl in n["fields"]}))
+        elif n.get("k") == "call" and n["f"].get("k") == "path" and len(n["f"]["segs"]) == 2 and n["f"]["segs"][0] == "ScopeAnalyzeState":
+            cs = [g for g in tc.fns if g.base == "ScopeAnalyzeState" and g.name == n["f"]["segs"][1] and g.body]
+            if len(cs) != 1:
+                continue
+            g = cs[0]
+            pn = [x for x in g.param_names() if x]
+            amap = dict(zip(pn, n["args"]))
+            lits = [x for x in sir.walk(g.body) if x.get("k") == "struct" and (x["path"].endswith("ScopeAnalyzeState") or x["path"] == "Self")]
+            if not lits:
+                continue
+            fields = {}
+            for fl in lits[-1]["fields"]:
+                srcs = []
+                for e_ in follow(fl["e"], g.body):
+                    srcs.append(e_)
+                    # a parameter stands for the argument of this call
+                    for y in sir.walk(e_):
+                        if y.get("k") == "path" and len(y["segs"]) == 1 and y["segs"][0] in amap:
+                            srcs.append(amap[y["segs"][0]])
+                fields[fl["name"]] = srcs
+            out.append((n, fields))
+    return out
+
+
 def check_mirror(ctx):
     ob = ctx.ob
     tc = ctx.tc
@@ -362,26 +408,12 @@ def check_mirror(ctx):
     else:
         f = tp[0]
         where = ctx.where(f)
-        inits = [n for n in sir.walk(f.body) if n.get("k") == "struct" and n["path"].endswith("ScopeAnalyzeState")]
+        inits = scope_state_inits(tc, f)
         ok = len(inits) >= 2
         details = []
-        for s in inits:
-            fl = {x["name"]: x["e"] for x in s["fields"]}
-            sc = fl.get("scopes")
-            # the list may be computed once into a local and cloned / moved into the initialisers
-            hops = 0
-            while sc is not None and hops < 3:
-                x = sir.strip_ref(sc)
-                while x.get("k") == "mcall" and x["m"] in ("clone", "to_vec", "to_owned") and not x["args"]:
-                    x = sir.strip_ref(x["recv"])
-                if x.get("k") == "path" and len(x["segs"]) == 1:
-                    decl = [n for n in sir.walk(f.body) if n.get("k") == "local" and n["pat"].get("name") == x["segs"][0] and n.get("init") is not None]
-                    if decl:
-                        sc = decl[0]["init"]
-                        hops += 1
-                        continue
-                break
-            from_scripts = sc is not None and mentions(sc, "scripts") and any(is_mcall(n, "iter") for n in sir.walk(sc)) and not any(is_mcall(n, "rev") for n in sir.walk(sc))
+        for _site, fields in inits:
+            srcs = fields.get("scopes") or []
+            from_scripts = any(mentions(e_, "scripts") for e_ in srcs) and not any(is_mcall(n, "rev") or (n.get("k") == "mcall" and n["m"].startswith("sort")) for e_ in srcs for n in sir.walk(e_))
             details.append("scopes from globals.scripts in order: %s" % from_scripts)
             ok = ok and from_scripts
         obs.append(ob("C05.mirror/analysis/start", ok, where, "; ".join(details) or "no ScopeAnalyzeState initialiser"))
@@ -389,7 +421,7 @@ def check_mirror(ctx):
         sub_loops = [n for n in sir.walk(f.body) if n.get("k") == "for" and mentions(n["e"], "sub_templates")]
         ok2 = False
         for lp in sub_loops:
-            if any(n.get("k") == "struct" and n["path"].endswith("ScopeAnalyzeState") for n in sir.walk(lp["body"])):
+            if any(any(y is site for y in sir.walk(lp["body"])) for site, _fl in inits):
                 ok2 = True
         obs.append(ob("C05.mirror/analysis/template-bodies", ok2, where, "each <template name> body is analysed with a fresh scope state built from scripts only: %s" % ok2))
 
